@@ -11,7 +11,8 @@ RULE = ("grid cases: files of 56..300 bytes, 1<=k<=N<=10, max segment size 16..1
         "files deleted, and any subset damaged: one field (version, offset-table entry, UEB, share-hash-chain number/value, block-hash-tree "
         "node, crypttext-hash-tree node, block, unused region), random flips, truncation, a share file copied under another share number, "
         "a share of another file, a good share file copied to a second server (duplicate share number: N or more files with fewer than N "
-        "distinct numbers); plus files whose UEB disagrees with the cap; each checked with verify=False and verify=True, then "
+        "distinct numbers); a sweep of every single-field mutation over one share of one-segment and multi-segment files; plus files whose UEB "
+        "disagrees with the cap; each checked with verify=False and verify=True, then "
         "check_and_repair, then (when repair wrote >= k shares) all older shares deleted and the file read; non-trivial = at least one share "
         "deleted or damaged; distinct = distinct (parameters, damage)")
 META = {
@@ -415,6 +416,83 @@ def history(ctx, i, jobs, layout=None):
         jobs.append((pre, terms, info))
 
 
+# ---- every field of one share, one at a time, single- and multi-segment files ---------------------------------
+def field_sweep(ctx, i, jobs):
+    """One file; each targeted single-field mutation (c02.targeted_mutations: version, header sizes, every offset-table
+    entry, every block, the unused region, EVERY crypttext-hash-tree and block-hash-tree node, every share-chain entry,
+    UEB length and body, truncations) applied in turn to one share, verify=True, per-share verdict against the oracle
+    (stored field differs from the genuine one => not good) and against the model.  Even i: a ONE-segment file (its
+    hash trees are a single root node each)."""
+    from core import grid as G
+    from allmydata.monitor import Monitor
+    r = ctx.rng("sweep", i)
+    k = r.choice([1, 2, 3])
+    n = r.choice([k, k + 1, k + 2])
+    single = (i % 2 == 0)
+    size = r.choice([56, 57, 60, 75, 100])
+    mss = r.choice([size, size + 1, size + k, 2 * size]) if single else r.choice([16, 24, 33])
+    data = bytes(r.getrandbits(8) for _ in range(size))
+    seed = r.getrandbits(30)
+    name = "S%d" % i
+    base = {"i": i, "sweep": True, "k": k, "n": n, "size": size, "max_segment_size": mss, "seed": seed}
+    with G.Grid(num_servers=n, k=k, n=n, happy=1, max_segment_size=mss, seed=seed, timeout=30) as g:
+        cap, shares, raws0, gen = C.upload_file(g, data, conv=b"c45s")
+        if single and gen.nseg != 1:
+            ctx.mismatch("sweep-not-single-segment", "expected a one-segment file, got %d segments" % gen.nseg, case=base, correspondence="verifier-verdict-vs-model")
+        raws = {(s.server, s.shnum): g.read_share(s) for s in shares}
+        namer = C.Namer(name, gen)
+        pre = C.preamble_for(name, gen, namer)
+        terms, info = [], []
+        muts_all = []
+        for s in shares:
+            pay = C.split_container(raws[(s.server, s.shnum)])[1]
+            muts_all.extend((s, label, newp) for label, newp in C.targeted_mutations(r, gen, s.shnum, pay))
+        # every mutation class at least once (round-robin over the shares), then a random remainder
+        by_label = {}
+        for s, label, newp in muts_all:
+            by_label.setdefault(label.split("+")[0].split("-64")[0], []).append((s, label, newp))
+        picked = [r.choice(v) for _k, v in sorted(by_label.items())]
+        budget = ctx.n(45, 120)
+        r.shuffle(picked)
+        picked = picked[:budget]
+        for s, label, newp in picked:
+            raw = raws[(s.server, s.shnum)]
+            head, _p, leases = C.split_container(raw)
+            g.write_share(s, C.join_container(head, newp, leases))
+            key = (s.server, s.shnum)
+            view = vshare_view(newp, gen)
+            case = dict(base, shnum=s.shnum, mutation=label, segments=gen.nseg)
+            kind = label.split(":")[0]
+            ok_expected = share_valid(view, gen, s.shnum)
+            node = C.fresh_node(g, cap)
+            out = g.run(lambda: node.check(Monitor(), verify=True), outcome=True, timeout=20)
+            if out.status != "ok":
+                if view.get("header_ok"):
+                    ctx.mismatch("verify-failed-unexpectedly", "check(verify=True) ended with %s although every share header is readable" % (out.error or out.status),
+                                 case=case, correspondence="verifier-verdict-vs-model")
+            else:
+                per, agg = results_of(g, out.value)
+                verdict = per.get(key, "absent")
+                if verdict == "good" and not ok_expected:
+                    ctx.oracle_fail("verify-reports-damaged-share-good", "%d-segment file: share %d with a damaged %s is reported good by verify=True" % (gen.nseg, s.shnum, label),
+                                    case=case, observed={"server": key[0], "shnum": key[1]})
+                if verdict != "good" and ok_expected:
+                    ctx.oracle_fail("verify-rejects-genuine-share", "%d-segment file: share %d (%s: nothing the verifier looks at differs from the upload) is reported %s" % (
+                        gen.nseg, s.shnum, label, verdict), case=case)
+                want_healthy = ok_expected        # all other shares are intact
+                if agg[0] != want_healthy:
+                    ctx.oracle_fail("check-health-rule:verify=True", "%d distinct share numbers have a valid share (N=%d) but verify says healthy=%s" % (
+                        n if ok_expected else n - 1, n, agg[0]), case=case, expected=want_healthy, observed=agg[0])
+                if view.get("header_ok"):
+                    vs = coq_vshare(view, gen, name, namer) if view.get("version") in (1, 2) else "(mkVshare %s UebShort None [] [] [])" % T.N(view["version"])
+                    terms.append("(verdict_code (sym_verify_share %s_cap %s %s (fun _ => []) (fun _ _ => [])) =? %s)%%N" % (
+                        name, T.Z(s.shnum), vs, T.N(VERDICTS.get(verdict, 9))))
+                    info.append(("verifier-verdict-vs-model", case, verdict))
+            g.write_share(s, raw)
+            ctx.case((i, label, s.shnum), kind="sweep:%s:%s" % ("1-segment" if gen.nseg == 1 else "multi-segment", kind))
+        jobs.append((pre, terms, info))
+
+
 # ---- files whose UEB disagrees with the cap ------------------------------------------------------------------
 UEB_EDITS = [
     ("size+1", lambda d: d.update(size=d["size"] + 1), False),
@@ -510,6 +588,8 @@ def run(ctx):
         history(ctx, i, jobs, layout=LAYOUTS[i % len(LAYOUTS)])
     for i in range(ctx.n(15, 60)):
         inconsistent_ueb(ctx, i, jobs)
+    for i in range(ctx.n(6, 40)):
+        field_sweep(ctx, i, jobs)
     evaluate(ctx, jobs)
 
 
@@ -519,7 +599,9 @@ def replay(ctx, record):
     if "i" not in case:
         return {"note": "record names no case index"}
     jobs = []
-    if "ueb_edit" in case:
+    if case.get("sweep"):
+        field_sweep(ctx, case["i"], jobs)
+    elif "ueb_edit" in case:
         inconsistent_ueb(ctx, case["i"], jobs)
     elif "layout" in case:
         history(ctx, case["i"], jobs, layout=[l for l in LAYOUTS if l[0] == case["layout"]][0])
